@@ -91,9 +91,14 @@ func c06Case(c *rep.Ctx, r c06Replay) {
 		}
 	}()
 	pan := guardMaybeMassive(strings.Contains(r.Extra, "massive"), func() {
-		if r.Route == "root" {
+		switch r.Route {
+		case "root":
 			err = gtree.MkdirFromRoot(sut.BuildRoot(f[0]), opts...)
-		} else {
+		case "root-alias":
+			err = gtree.MkdirProgrammably(sut.BuildRoot(f[0]), opts...)
+		case "md-alias":
+			err = gtree.Mkdir(strings.NewReader(enum.Spell(r.Depth, r.Names, enum.Canonical)), opts...)
+		default:
 			err = gtree.MkdirFromMarkdown(strings.NewReader(enum.Spell(r.Depth, r.Names, enum.Canonical)), opts...)
 		}
 	})
@@ -204,6 +209,20 @@ func init() {
 							b := base
 							b.Route = "root"
 							c06Case(c, b)
+						}
+						if n <= 3 {
+							// the deprecated aliases take the same options and do the same
+							b := base
+							b.Route = "md-alias"
+							c06Case(c, b)
+							b.Pre = map[string]byte{roots[0]: 'd'}
+							c06Case(c, b)
+							if len(f) == 1 {
+								b.Route = "root-alias"
+								c06Case(c, b)
+								b.Pre = nil
+								c06Case(c, b)
+							}
 						}
 						if n <= 3 && ei <= 1 {
 							for _, ex := range c06Extras {
